@@ -400,11 +400,14 @@ def standin_conversions(tier, seed):
             def _apply_channel_(self, args):
                 return cirq.apply_channel(self.inner, args)
 
-        conj_pre = rng.choice([cirq.S, cirq.T, cirq.Y ** 0.5, cirq.I])
-        inner = ch if cirq.num_qubits(ch) != 1 else cirq.KrausChannel([cirq.unitary(conj_pre) @ k @ cirq.unitary(conj_pre).conj().T for k in ks])
+        cu = cirq.testing.random_unitary(2, random_state=rng.randrange(10 ** 6))  # a generic complex basis change: the Choi matrix is not real
+        inner = ch if cirq.num_qubits(ch) != 1 else cirq.KrausChannel([cu @ k @ cu.conj().T for k in ks])
         ks_in = [np.asarray(k, dtype=complex) for k in cirq.kraus(inner)]
         try:
-            got = cirq.kraus(OnlyApply(inner), None)
+            got = cirq.kraus(OnlyApply(inner), "no kraus")  # (with default None the protocol skips this fallback on purpose)
+            if isinstance(got, str):
+                got = None
+                bad("kraus() of a value with only _apply_channel_ returns nothing", channel=inner)
         except Exception as ex:
             got = None
             bad(f"kraus() of a value with only _apply_channel_ raised {type(ex).__name__}", channel=inner)
